@@ -65,6 +65,9 @@ type Scenario struct {
 	Prior string `json:"prior,omitempty"`
 	// CustomParse: network clients only: build with NewClient and a wrapped ParseResponseFunc so parser entry is observable
 	CustomParse bool `json:"custom_parse,omitempty"`
+	// Follow: after a successful call, the same request is made once more on the same client and answered by a device
+	// with a different memory image; the first response is re-encoded before and after (Outcome.RespAtReturn / RespAfterFollow)
+	Follow bool `json:"follow,omitempty"`
 }
 
 // HookCall is one recorded hook invocation.
@@ -114,6 +117,9 @@ type Outcome struct {
 	Hooks     []HookCall
 	// ParserCalls: inputs the wrapped parser saw (CustomParse), with the sequence number relative to hook calls
 	ParserCalls []HookCall
+	// Follow: re-encodings of Resp taken when the call returned and after a later call on the same client
+	RespAtReturn, RespAfterFollow []byte
+	FollowErr                     error
 }
 
 // HangCeiling is how long a call may run before it is declared hung.
@@ -274,7 +280,28 @@ func Run(sc Scenario) Outcome {
 	out.Writes, out.Reads, out.Consumed, out.Flushes = script.Snapshot()
 	out.WriteSeqs = append([]int(nil), script.WriteSeqs...)
 	if rec != nil {
-		out.Hooks = rec.Calls
+		out.Hooks = append([]HookCall(nil), rec.Calls...)
+	}
+	if sc.Follow && !out.Hung && out.Panic == nil && out.Err == nil && !cat.IsNilValue(out.Resp) && req != nil {
+		out.RespAtReturn = append([]byte(nil), out.Resp.Bytes()...)
+		other := device.New(0x5EED0FF0110).Answer(f, out.ReqBytes)
+		script.Reset(other, []xport.Event{{Kind: "data", N: len(other)}}, false)
+		fch := make(chan error, 1)
+		go func() {
+			defer func() {
+				if p := recover(); p != nil {
+					fch <- fmt.Errorf("panic: %v", p)
+				}
+			}()
+			_, err := do(context.Background(), req)
+			fch <- err
+		}()
+		select {
+		case out.FollowErr = <-fch:
+		case <-time.After(HangCeiling):
+			out.FollowErr = fmt.Errorf("the later call did not return")
+		}
+		out.RespAfterFollow = append([]byte(nil), out.Resp.Bytes()...)
 	}
 	return out
 }
